@@ -348,7 +348,11 @@ def check_property(prop, tier='quick', seed=0):
                              .encode()).hexdigest()[:8], 16)
         jobs.append((r['module'], r['proof'], s, n_samples, budget))
     btasks = R.property_tasks(prop, opts, kind='bounded')
-    bjobs = [(t[0], t[1], seed, tier) for t in btasks]
+    # thorough: every bounded family is run under 8 derived seeds (its
+    # random part differs, its enumerated part repeats), merged below
+    reps = 1 if tier == 'quick' else 8
+    bjobs = [(t[0], t[1], seed if k == 0 else seed * 1000 + k, tier)
+             for t in btasks for k in range(reps)]
     with ProcessPoolExecutor(max_workers=16) as pool:
         sf = [pool.submit(_sample_job, j) for j in jobs]
         bf = [pool.submit(_bounded_job, j) for j in bjobs]
@@ -439,11 +443,36 @@ def check_property(prop, tier='quick', seed=0):
             p = write_replay(prop, ob_id, payload)
             rep.violations.append((ob_id, p, True))
 
+    merged = {}
+    for b in bruns:
+        key = (b['module'], b['proof'])
+        m = merged.get(key)
+        if m is None:
+            merged[key] = b
+            b['seeds'] = [b['seed']]
+            continue
+        m['seeds'].append(b['seed'])
+        m['evaluations'] += b['evaluations']
+        m['wall_s'] = round(m['wall_s'] + b['wall_s'], 2)
+        for nm, c in b['counts'].items():
+            m['counts'][nm] = m['counts'].get(nm, 0) + c
+        m['distinct_checks'] = len(m['counts'])
+        for nm, c in b['nfailed'].items():
+            m['nfailed'][nm] = m['nfailed'].get(nm, 0) + c
+            m['first_fail'].setdefault(nm, b['first_fail'].get(nm))
+            lst = m['fail_details'].setdefault(nm, [])
+            for d in b['fail_details'].get(nm, []):
+                if d not in lst:
+                    lst.append(d)
+        if m['exception'] is None:
+            m['exception'] = b['exception']
+    bruns = list(merged.values())
     for b in bruns:
         bounded_rows.append({
             'module': b['module'], 'proof': b['proof'], 'kind': 'bounded '
             'family (enumerated by the contract script itself)',
-            'bound': b['bound'], 'evaluations': b['evaluations'],
+            'bound': b['bound'], 'seeds': b.get('seeds'),
+            'evaluations': b['evaluations'],
             'feasible': b['evaluations'],
             'distinct': b['distinct_checks'], 'wall_s': b['wall_s'],
             'checks': b['counts']})
